@@ -352,6 +352,11 @@ PROPS["C20"] = dict(
     steps=[
         dict(layer="native", package="rt", monitor="c20", shards_quick=4, shards_thorough=16),
         dict(layer="miri", package="rt", monitor="c20", shards_quick=8, shards_thorough=16, budget_quick=160, budget_thorough=1600),
+        # real threads: one setter, 1..4 subscribers with wakers that unpark their thread; state-based verdicts
+        # (a poll answers Pending although a newer value had been set before it began; parked without a wake-up
+        # although a newer value was set / the state went away), see harness/rt/src/c20t.rs
+        dict(layer="native", package="rt", monitor="c20t", tag="threads", shards_quick=8, shards_thorough=16),
+        dict(layer="tsan", package="rt", monitor="c20t", shards_thorough=4, tier="thorough", tag="tsan-threads", budget_thorough=40_000, timeout_thorough=3600),
     ],
 )
 SETUP_EXTRA += [("native", "rt"), ("miri", "rt")]
@@ -637,10 +642,15 @@ _LATER = {
     "C15": "the empty inline struct () among the IDL types; null and {} are interchangeable only for the whole parameters value",
     "C16": "fields named to dodge a keyword or marked internal (type_, in_, _id), described under those names (rendering is only demanded of descriptions whose names are legal IDL)",
     "C17": "the varied messages carry a map with the widest integers as keys and values",
+    "C20": "a threaded layer: one setter thread and 1..4 subscriber threads (fast and slow ones) whose wakers unpark them, 1..60 sets, both crates; thorough: the same under ThreadSanitizer (filtered to /repo frames)",
     "C18": "floods through the transport (one call per read) under a cooperative budget of 1..8 transport operations per poll; a call behind a stream is ready once the stream closed and its items are out; real sockets: an order that looks unfair must repeat with a grace period of 2..200 ms for the reactor before it is reported",
 }
 for _k, _v in _LATER.items():
     PROPS[_k]["rule"] = PROPS[_k]["rule"] + " ; " + _v
+PROPS["C20"]["oracle"] += ("; threads: a poll may answer Pending only if no set that returned before the poll began stored a value different "
+                            "from the one the subscriber holds; a parked subscriber's waker must have fired once such a set has returned, "
+                            "and once every handle of the state is gone; ordinals strictly increasing and newer than the subscription; "
+                            "the stream ends only after the drop of the last handle has begun")
 
 LEVEL_TEXT = {}
 
